@@ -50,4 +50,14 @@ PROPS = {
         "level_note": "Trusted: crypto primitives and the sortition library used by the reference checker.",
         "design_ref": "DESIGN.md §4 C03",
     },
+    "C05": {
+        "engine": "agreesim", "level": "exploration", "budget": {"quick": 60, "thorough": 1200},
+        "rule": "one evaluation = one seeded run: asynchronous prefix of 0-1500 scheduler steps with loss, partitions, stalls, crashes and arbitrary timer firing (nodes end up in different periods/steps/rounds), then GST: faults stop, "
+                "discrete-event phase with every message delivered within a drawn delta (20-600 ms), +-5% clock-rate skew, timers at their deadlines; non-trivial = the pending round was committed by every node in the synchronous phase; distinct = distinct event-log digest",
+        "components": AGREE_COMPONENTS, "assumptions": AGREE_ASSUME + ["liveness verdicts are issued only after faults stop; bound K=6 periods is fixed from the protocol argument with margin and validated on the unchanged tree"],
+        "technique": "deterministic simulation: adversarial asynchronous prefix, then bounded-delay discrete-event phase; bounded-liveness oracle (periods and simulated time after GST)",
+        "level_text": "Bounded liveness: after faults stop, every honest node commits the pending round within 6 periods (and 40 simulated minutes) in every explored run; starting states are produced by seeded asynchronous fault prefixes.",
+        "level_note": "Trusted: simulator clock/transport; honest supermajority online after GST; no adversary in liveness runs.",
+        "design_ref": "DESIGN.md §4 C05",
+    },
 }
